@@ -37,18 +37,19 @@ type request struct {
 }
 
 type roundReport struct {
-	JitterHits int64
-	Pattern    string   `json:"pattern"`
-	Round      int      `json:"round"`
-	Events     string   `json:"events"` // interleaving signature: order of call/return events
-	Results    []string `json:"results"`
-	Problems   []string `json:"problems"` // "sig ## detail"
-	Hung       bool     `json:"hung"`
-	Overlap    int      `json:"overlapping_conflicts"`
-	Contention int      `json:"contention_refusals"`
-	Admitted   int      `json:"admitted"`
-	Refused    int      `json:"refused"`
-	Porcupine  string   `json:"porcupine"`
+	JitterHits  int64
+	PlayHazards int
+	Pattern     string   `json:"pattern"`
+	Round       int      `json:"round"`
+	Events      string   `json:"events"` // interleaving signature: order of call/return events
+	Results     []string `json:"results"`
+	Problems    []string `json:"problems"` // "sig ## detail"
+	Hung        bool     `json:"hung"`
+	Overlap     int      `json:"overlapping_conflicts"`
+	Contention  int      `json:"contention_refusals"`
+	Admitted    int      `json:"admitted"`
+	Refused     int      `json:"refused"`
+	Porcupine   string   `json:"porcupine"`
 }
 
 type roundsResult struct {
@@ -344,6 +345,19 @@ func oneRound(rng *rand.Rand, pattern string, idx int) (rep roundReport) {
 				problem("select|output-handed-to-two-selectors", "output %s was returned to selector %d and selector %d", k, j, i)
 			}
 			seen[k] = i
+		}
+	}
+	// (b2) the block played concurrently is valid on the state's tip: in every one-at-a-time order
+	// Play succeeds (before the submissions: they are then refused; after them: conflicting pool
+	// transactions are evicted) - except under the recorded PlayAndRepost findings, whose
+	// structural precondition is evaluated on the pool the round left behind
+	for _, rq := range reqs {
+		if rq.Kind == "play" && !rq.Admitted {
+			if s.PlayHazard(rq.Block) {
+				rep.PlayHazards++
+			} else {
+				problem("play|valid-block-refused-under-concurrency", "Play of a valid block on the state's tip failed (%s) while submissions were in flight; no pool transaction writes a key an unseen block transaction reads", rq.Err)
+			}
 		}
 	}
 	// (c) a sequential order must explain the DoTx results (porcupine)
